@@ -110,7 +110,7 @@ func c20Configs(tier string) []c20Cfg {
 				for _, k0 := range kinds {
 					for _, k1 := range kinds {
 						for _, k2 := range kinds {
-							for _, a := range []string{"valid", "invalid"} {
+							for _, a := range []string{"valid", "invalid", "fspath"} {
 								if tier != "thorough" {
 									// quick: the address dimension only where exactly one descriptor is not a socket or all are sockets
 									nonsock := 0
@@ -122,7 +122,7 @@ func c20Configs(tier string) []c20Cfg {
 									if nonsock > 1 && !(k0 == k1 && k1 == k2) {
 										continue
 									}
-									if a == "invalid" && nonsock > 0 {
+									if a != "valid" && nonsock > 0 {
 										continue
 									}
 								}
@@ -145,6 +145,14 @@ func runC20Config(c c20Cfg) (msg, key, outcome string) {
 	tag := fmt.Sprintf("vx20-%d-%d", os.Getpid(), n)
 	c.Product = "P-" + tag
 	c.Fallback = "@" + tag + "-fallback"
+	pathFile := ""
+	if c.Addr == "fspath" {
+		// the address argument names an existing filesystem node: under activation it must be left alone
+		pathFile = fmt.Sprintf("c20-%s.path", tag)
+		os.WriteFile(pathFile, []byte("precious"), 0o644)
+		defer os.Remove(pathFile)
+		c.Fallback = pathFile
+	}
 	var files []*os.File
 	var closers []io.Closer
 	defer func() {
@@ -243,6 +251,12 @@ func runC20Config(c c20Cfg) (msg, key, outcome string) {
 		if sel >= 0 {
 			want = "unix " + c.Cand[sel]
 		}
+		if sel >= 0 && pathFile != "" {
+			if b, err := os.ReadFile(pathFile); err != nil || string(b) != "precious" {
+				finish()
+				return fmt.Sprintf("the service was activated on descriptor %d, yet the filesystem node named by the (ignored) address argument was touched: %v %q", 3+sel, err, b), "symptom=address-argument-not-ignored " + cfgKey, ""
+			}
+		}
 		if sel < 0 && c.Addr == "invalid" {
 			finish()
 			return fmt.Sprintf("no activation and an invalid address, yet the service listens on %q", got), "symptom=serves-without-address-or-activation " + cfgKey, ""
@@ -331,6 +345,9 @@ func c20Helper(args []string) int {
 		return 0
 	}
 	addr := "unix:" + c.Fallback
+	if c.Addr == "fspath" {
+		addr = "unix:" + c.Fallback + ";mode=0600"
+	}
 	if c.Addr == "invalid" {
 		addr = "garbage-without-protocol"
 	}
@@ -403,6 +420,6 @@ func init() {
 		json.Unmarshal(raw, &c)
 		msg, key, _ := runC20Config(c)
 		return msg, key
-	}, rule: "exhaustive enumeration of the configuration product LISTEN_PID {this process, another pid, the parent's pid, unset, garbage} x LISTEN_FDS {unset, '', foo, -1, 0, 1, 2, 3} x LISTEN_FDNAMES {unset, '', 16 lists with varlink first/middle/last/twice/absent/wrong case/superstring and arity 1-4} x kind of each of the three inherited descriptors {listening socket, regular file, pipe} x address argument {valid, invalid}; every configuration runs Service.Listen in a fresh helper process that really inherits descriptors 3-5; the endpoint the service listens on (and a GetInfo round trip on it with the helper's unique product string) is compared with a reference selector restating the property; states = configurations executed",
+	}, rule: "exhaustive enumeration of the configuration product LISTEN_PID {this process, another pid, the parent's pid, unset, garbage} x LISTEN_FDS {unset, '', foo, -1, 0, 1, 2, 3} x LISTEN_FDNAMES {unset, '', 16 lists with varlink first/middle/last/twice/absent/wrong case/superstring and arity 1-4} x kind of each of the three inherited descriptors {listening socket, regular file, pipe} x address argument {valid abstract name, invalid, path of an existing file}; every configuration runs Service.Listen in a fresh helper process that really inherits descriptors 3-5; the endpoint the service listens on (and a GetInfo round trip on it with the helper's unique product string) is compared with a reference selector restating the property; states = configurations executed",
 		assume: []string{"one helper process per configuration; descriptor numbers beyond the three passed ones are runtime-internal (never sockets usable as listeners)", "LISTEN_FDS forms with sign or blanks ('+1', ' 1') are outside the alphabet (the property does not say whether they are integers)", "the 30-60 s watchdogs only classify a run as inconclusive"}}
 }
